@@ -294,7 +294,12 @@ func (c *Calcium) filterNodes(ctx context.Context, nodeFilter *types.NodeFilter)
 		nodenames := utils.Map(ns, func(node *types.Node) string { return node.Name })
 		// unique
 		p := utils.Unique(nodenames, func(i int) string { return nodenames[i] })
-		ns = ns[:p]
+		// rebuild the node slice in the order of the sorted unique names
+		byName := map[string]*types.Node{}
+		for _, node := range ns {
+			byName[node.Name] = node
+		}
+		ns = utils.Map(nodenames[:p], func(nodename string) *types.Node { return byName[nodename] })
 	}()
 
 	if len(nodeFilter.Includes) != 0 {
